@@ -1481,13 +1481,17 @@ namespace bloch::runtime {
                 }
             }
         }
-        // Sweep unmarked non-tracked objects
+        // Sweep unmarked non-tracked objects. An unmarked object that holds qubits is not swept
+        // (its qubits are released when its last owner lets go of it), but it is garbage like the
+        // rest: if sweeping its owner is what releases it, its destructor must not run at a
+        // moment that depends on when the collector happened to be triggered.
         std::vector<std::shared_ptr<Object>> unreachable;
         for (auto& obj : objects) {
-            if (!obj->marked && obj->cls && !obj->cls->hasTrackedFields) {
-                obj->skipDestructor = true;
+            if (obj->marked || !obj->cls)
+                continue;
+            obj->skipDestructor = true;
+            if (!obj->cls->hasTrackedFields)
                 unreachable.push_back(obj);
-            }
         }
         for (auto& obj : unreachable) {
             for (auto& f : obj->fields) f = {};
